@@ -381,7 +381,13 @@ func allocFields(events []Event, al *ssa.Alloc) map[string]*core.Term {
 		if st, ok := ev.Instr.(*ssa.Store); ok {
 			if fa, ok := st.Addr.(*ssa.FieldAddr); ok && fa.X == ssa.Value(al) {
 				out[core.FieldName(fa)] = ev.Val
+				continue
 			}
+		}
+		// a store through another name of the same object (the result of an inner constructor, a parameter): the address term,
+		// lifted into the root's vocabulary, is a field of that very allocation
+		if ev.Addr != nil && ev.Addr.Op == "field" && len(ev.Addr.Args) == 1 && ev.Addr.Args[0].Op == "alloc" && ev.Addr.Args[0].Val == ssa.Value(al) {
+			out[ev.Addr.Name] = ev.Val
 		}
 	}
 	return out
